@@ -28,11 +28,24 @@ func concDrain(args []string, out *bufio.Writer) {
 		fmt.Fprintf(out, "script concdrain-%d-%d\n", *seed, i)
 		maxSize := 2 + r.intn(6)
 		var atomicEv, delEv atomic.Int64
-		c := otter.Must(&otter.Options[int, int]{
+		do := &otter.Options[int, int]{
 			MaximumSize:      maxSize,
 			OnAtomicDeletion: func(e otter.DeletionEvent[int, int]) { atomicEv.Add(1) },
 			OnDeletion:       func(e otter.DeletionEvent[int, int]) { delEv.Add(1) },
-		})
+		}
+		// a quarter of the caches expire only (no size bound), a quarter do both; their clock is a manual one that never ticks,
+		// so the periodic clean-up of an expiring cache cannot paper over a lost wake-up
+		switch i % 4 {
+		case 2:
+			do.MaximumSize = 0
+			maxSize = 1 << 30
+			do.ExpiryCalculator = otter.ExpiryWriting[int, int](time.Hour)
+			do.Clock = &manualClock{now: 1000000000}
+		case 3:
+			do.ExpiryCalculator = otter.ExpiryWriting[int, int](time.Hour)
+			do.Clock = &manualClock{now: 1000000000}
+		}
+		c := otter.Must(do)
 		writers := 1 + r.intn(4)
 		others := 0
 		if *lockHolders {
@@ -58,6 +71,7 @@ func concDrain(args []string, out *bufio.Writer) {
 			for o := 0; o < others; o++ {
 				wg.Add(1)
 				kind := int(r.next() % 5)
+				early := r.next()%2 == 0
 				go func() {
 					defer wg.Done()
 					switch kind {
@@ -66,10 +80,16 @@ func concDrain(args []string, out *bufio.Writer) {
 					case 1:
 						for range c.Coldest() {
 							runtime.Gosched()
+							if early {
+								break // an iteration that is left early must hand the maintenance over just the same
+							}
 						}
 					case 2:
 						for range c.Hottest() {
 							runtime.Gosched()
+							if early {
+								break
+							}
 						}
 					case 3:
 						_ = c.GetMaximum()
